@@ -527,3 +527,79 @@ def c03_r9(ctx):
                loc=ctx.nodeloc(f, takes[0]))
     if n < 1:
         raise AnalysisError("FileIndex._reader no longer re-uses readers through `reusable`")
+
+
+@rule("C03", "R10", "K2", "a refreshed reader takes its segments from the TOC; a reused segment is carried over only if it was never "
+      "opened from a TOC", min_instances=1, also=("C06",),
+      clause="FileIndex._reader receives the segment list of the TOC it has just read. Any statement that adds to that list a segment "
+             "obtained from the `reuse` reader must be guarded by `<leaf>.generation() is None` (a leaf reader this method opened "
+             "carries the TOC's generation; one without a generation is a BufferedWriter's in-memory segment). Without the guard "
+             "refresh() after a merging commit searches the merged-away segments too and returns every old document twice.")
+def c03_r10(ctx):
+    import re
+    prog = ctx.prog
+    f = prog.method("index.FileIndex", "_reader", inherited=False)
+    ctx.saw(f)
+    params = [p for p in f.params if p not in ("self", "cls")]
+    if len(params) < 5:
+        raise AnalysisError("FileIndex._reader signature changed: %s" % params)
+    segs = "segments" if "segments" in params else params[2]
+    reuse = "reuse" if "reuse" in params else params[-1]
+    # names derived from the reuse reader
+    tainted = set([reuse])
+    changed = True
+    while changed:
+        changed = False
+        for x in ast.walk(f.node):
+            src, tgts = None, []
+            if isinstance(x, ast.Assign):
+                src, tgts = x.value, x.targets
+            elif isinstance(x, (ast.For, ast.comprehension)):
+                src, tgts = x.iter, [x.target]
+            if src is None or not (norm.names_in(src) & tainted):
+                continue
+            for t in tgts:
+                for nm in ast.walk(t):
+                    if isinstance(nm, ast.Name) and nm.id not in tainted and nm.id != segs:
+                        tainted.add(nm.id)
+                        changed = True
+    fa = guards.Facts(f)
+    pat = re.compile(r"^\(None is (\w+)\.generation\(\)\)$")
+
+    def guarded_in_comprehension(value):
+        for c in ast.walk(value):
+            if isinstance(c, ast.comprehension) and (norm.names_in(c.iter) & tainted or norm.names_in(c.target) & tainted):
+                for t in c.ifs:
+                    for pol, atom in guards.atoms(t, "T"):
+                        m = pat.match(norm.canon(atom)) if pol == "T" else None
+                        if m and m.group(1) in tainted:
+                            return True
+        return False
+    n = 0
+    for x in ast.walk(f.node):
+        value = None
+        if isinstance(x, ast.Call) and isinstance(x.func, ast.Attribute) and x.func.attr in ("extend", "append", "insert") \
+                and norm.canon(x.func.value) == segs and x.args:
+            value = x.args[-1]
+        elif isinstance(x, ast.AugAssign) and norm.canon(x.target) == segs:
+            value = x.value
+        elif isinstance(x, ast.Assign) and any(norm.canon(t) == segs for t in x.targets):
+            value = x.value
+        if value is None or not (norm.names_in(value) & tainted):
+            continue
+        n += 1
+        node = fa.node_of(x if not isinstance(x, (ast.Assign, ast.AugAssign)) else x.value)
+        facts = fa.at(node) if node is not None else None
+        ok = False
+        if facts:
+            for pol, text in facts:
+                m = pat.match(text) if pol == "T" else None
+                if m and m.group(1) in tainted:
+                    ok = True
+        ok = ok or guarded_in_comprehension(value)
+        ctx.ob(f, ok, "a segment of the reused reader is added to the TOC's list only if its reader has no generation",
+               detail="" if ok else "`%s` carries segments of the old reader over: after a merging commit the refreshed reader "
+                                    "searches the merged-away segments as well" % norm.canon(x),
+               loc=ctx.nodeloc(f, x))
+    if n == 0:
+        ctx.ob(f, True, "the TOC's segment list is not extended from the reused reader")
